@@ -324,4 +324,60 @@ theorem procPayload_unauth_whole (C : Crypto) (L : Loc) : ∀ (fuel : Nat) (e : 
         rw [h1.1]
         exact ih e rest hk hp hsr
 
+/-! ### per-handler lemmas behind "otherwise the transport ends in Failed" (unfoldings of one handler call each) -/
+
+/-- A Certificate message whose leaf does not hash to the expected fingerprint fails the transport on
+the spot (state Failed, the handler returns `Err`) … -/
+theorem certificate_mismatch_fails (C : Crypto) (e : Ep) (body leaf f : Bytes) (rest : List Bytes)
+    (hexp : e.ctx.expectedFp = some f) (hdec : C.certDecode body = some (leaf :: rest)) (hne : C.digest leaf ≠ f) :
+    handleCertificate C e body = failed e := by
+  unfold handleCertificate
+  simp [hdec, hexp, fpMismatch, hne]
+
+/-- … as do a ServerKeyExchange whose signature does not verify under the accepted leaf, a
+ServerHelloDone without a verified key exchange, and a Finished whose verify_data differs. -/
+theorem bad_signature_fails (C : Crypto) (e : Ep) (body share leaf cr sr : Bytes) (hc : e.isClient = true)
+    (hdec : C.skeDecode body = some share) (hleaf : e.ctx.peerCert = some leaf) (hcr : e.ctx.clientRandom = some cr)
+    (hsr : e.ctx.serverRandom = some sr) (hbad : C.sigOk leaf cr sr body = false) :
+    handleServerKeyExchange C e body = failed e := by
+  unfold handleServerKeyExchange
+  simp [hc, hdec, hleaf, hcr, hsr, hbad]
+
+theorem bad_finished_fails_client (C : Crypto) (e : Ep) (body : Bytes) (k : Keys) (hk : e.ctx.keys = some k)
+    (hbad : body ≠ C.vd k.ms false e.ctx.transcript) : handleFinishedClient C e body = failed e := by
+  unfold handleFinishedClient
+  simp [hk, hbad]
+
+/-- the handshake deadline ends a handshake that is still running: after it no live endpoint is
+Handshaking (a stuck handshake — lost messages, ignored out-of-order ones, a peer that never answers —
+ends in Failed, with the loop stopped) -/
+theorem deadline_ends_handshake (C : Crypto) (L : Loc) (e : Ep) (h : e.alive = true) (hh : e.conn = .handshaking) :
+    (stepOp C L e .deadline).1.conn = .failed ∧ (stepOp C L e .deadline).1.alive = false := by
+  simp [stepOp, onDeadline, h, hh]
+
+
+/-- an endpoint whose loop has ended and whose state is not Connected does nothing any more, whatever
+happens to it: datagrams are not read, `send()` is refused, timers and a further `close()` find no task -/
+theorem dead_and_not_connected_is_final (C : Crypto) (L : Loc) (e : Ep) (ha : e.alive = false) (hc : e.conn ≠ .connected) :
+    ∀ ops : List Op, runOps C L e ops = (e, []) := by
+  intro ops
+  induction ops with
+  | nil => rfl
+  | cons o os ih =>
+    have h1 : stepOp C L e o = (e, []) := by
+      cases o with
+      | packet dec bs => simp [stepOp, onPacket, ha]
+      | send d => simp [stepOp, onSend, hc]
+      | close => simp [stepOp, onClose, ha]
+      | tick => simp [stepOp, onTick, ha]
+      | deadline => simp [stepOp, onDeadline, ha]
+    simp only [runOps, h1, ih, List.append_nil]
+
+theorem runOps_append_fst (C : Crypto) (L : Loc) : ∀ (a b : List Op) (e : Ep),
+    (runOps C L e (a ++ b)).1 = (runOps C L (runOps C L e a).1 b).1 := by
+  intro a
+  induction a with
+  | nil => intro b e; rfl
+  | cons o os ih => intro b e; simp only [List.cons_append, runOps]; exact ih b _
+
 end RtcModel.DtlsHs
